@@ -924,7 +924,7 @@ func ruleHybridAtomicAdd(r *Run, k *hybridKind) {
 				ret, ok := in.(*ssa.Return)
 				return ok && classifyErr(ret) == ErrNonNil
 			}, nil)
-			r.Check(esc == nil && c.S(mu.Key) == "P1", rule, "hybrid:docinfo", w.InstrPos(mu)+" "+name, "docInfo[id] recorded only when the whole add succeeded", "docInfo is recorded on a path that can still fail")
+			r.Check(esc == nil && c.S(mu.Key) == fmt.Sprintf("P%d", paramOfType(fn, 1, "uint32")), rule, "hybrid:docinfo", w.InstrPos(mu)+" "+name, "docInfo[id] recorded only when the whole add succeeded", "docInfo is recorded on a path that can still fail")
 		}
 	}
 }
